@@ -1,7 +1,9 @@
 //! rtverif — runtime-verification harness for int08h/roughenough.
 //! Invoked by /verif/check; one process per shard.
 
+mod c04;
 mod c05;
+mod c13;
 mod codecgen;
 mod inproc;
 mod out;
@@ -71,6 +73,8 @@ fn main() {
             inproc::install_panic_capture();
             let mut o = out::Out::new();
             match prop.as_str() {
+                "C04" => c04::run(&ctx, &mut o),
+                "C13" => c13::run(&ctx, &mut o),
                 "C05" | "C06" => c05::run(&ctx, &mut o, &prop),
                 _ => {
                     eprintln!("unknown property {}", prop);
